@@ -369,6 +369,10 @@ func runC08(c *Ctx) {
 
 	// ---------- O3/O4 frame limits ----------
 	checkFrameLimits(c, w)
+	// O7 (shared with C07.R6): a set-attributes or open request is decoded "totally" only if the attribute block its
+	// flags word announces is checked to be there: otherwise a truncated packet decodes without error and the bytes are
+	// interpreted later, outside the decoder's error handling
+	checkAttrsValidatedAtDecode(c, "O7")
 
 	// every call site of a function whose obligations were lifted establishes the requirement: those are the
 	// "call" obligations already decided above; make sure none was silently skipped
